@@ -363,13 +363,30 @@ impl<D: DataMut> ReaderFrom for VecZnx<D> {
         let len: usize = reader.read_u64::<LittleEndian>()? as usize;
 
         // Validate metadata consistency: n * cols * size * sizeof(i64) must match data length.
-        let expected_len: usize = new_n * new_cols * new_size * size_of::<i64>();
+        // Checked arithmetic: a header whose product overflows usize is rejected, never wrapped or panicked on.
+        let limb_bytes: Option<usize> = new_n.checked_mul(new_cols).and_then(|x| x.checked_mul(size_of::<i64>()));
+        let expected_len: Option<usize> = limb_bytes.and_then(|x| x.checked_mul(new_size));
+        let (limb_bytes, expected_len) = match (limb_bytes, expected_len) {
+            (Some(a), Some(b)) => (a, b),
+            _ => {
+                return Err(std::io::Error::new(
+                    std::io::ErrorKind::InvalidData,
+                    format!("VecZnx metadata overflows usize: n={new_n} * cols={new_cols} * size={new_size} * 8"),
+                ));
+            }
+        };
         if expected_len != len {
             return Err(std::io::Error::new(
                 std::io::ErrorKind::InvalidData,
                 format!(
                     "VecZnx metadata inconsistent: n={new_n} * cols={new_cols} * size={new_size} * 8 = {expected_len} != data len={len}"
                 ),
+            ));
+        }
+        if new_max_size < new_size {
+            return Err(std::io::Error::new(
+                std::io::ErrorKind::InvalidData,
+                format!("VecZnx metadata inconsistent: max_size={new_max_size} < size={new_size}"),
             ));
         }
 
@@ -381,12 +398,14 @@ impl<D: DataMut> ReaderFrom for VecZnx<D> {
             ));
         }
         reader.read_exact(&mut buf[..len])?;
+        // The sender's capacity is meaningless here: never claim more limbs than this buffer holds.
+        let capacity: usize = if limb_bytes == 0 { new_max_size } else { buf.len() / limb_bytes };
 
         // Only commit metadata after successful read.
         self.n = new_n;
         self.cols = new_cols;
         self.size = new_size;
-        self.max_size = new_max_size;
+        self.max_size = new_max_size.min(capacity);
         Ok(())
     }
 }
